@@ -43,7 +43,7 @@ def render(doc):
                 iid = "%s.%s" % (code, k["n"])
                 maps["scalars"][iid] = (code, k["n"])
                 lines.append("%s '%s'" % (k["n"], iid))
-                tk.append('[k |-> "item", id |-> "%s"]' % iid)
+                tk.append('[k |-> "item", id |-> "%s", n |-> "%s"]' % (iid, k["n"]))
             elif k["k"] == "loop":
                 lid = "%s.%s" % (code, k["lid"])
                 maps["loops"][lid] = k["names"]
@@ -58,7 +58,7 @@ def render(doc):
                     maps["items"].update(its)
                     lines.append(" ".join("'%s'" % i for i in its))
                     pk.append('[id |-> "%s", items |-> %s]' % (pid, seq('"%s"' % i for i in its)))
-                tk.append('[k |-> "loop", id |-> "%s", packets |-> %s]' % (lid, seq(pk)))
+                tk.append('[k |-> "loop", id |-> "%s", names |-> %s, packets |-> %s]' % (lid, seq('"%s"' % n for n in k["names"]), seq(pk)))
             else:
                 tk.append('[k |-> "frame", c |-> %s]' % do_cont(k["code"], k["kids"], False))
         if not isblock:
@@ -76,7 +76,8 @@ def map_log(log, maps):
     for e in log:
         cb = e["cb"]
         if cb in ("error", "ws", "kw", "dn"):
-            out.append((cb, e.get("code", e.get("t")), e.get("r", 0)))
+            # dn: the data name as written; kw: the text handed over is left open (cif.h: "length may be zero")
+            out.append((cb, None if cb == "kw" else e.get("code", e.get("t")), e.get("r", 0)))
             continue
         r = e["r"]
         if cb in ("cif_start", "cif_end"):
@@ -202,9 +203,9 @@ def c15(tier, replay=None):
         def run_chunk(chunk):
             cmds = []
             for p in chunk:
-                cmds.append({"op": "parse", "cif": "c", "text": text, "handler": 1, "script": p["script"], "errors": "accept"})
+                cmds.append({"op": "parse", "cif": "c", "text": text, "handler": 1, "syntax": 1, "script": p["script"], "errors": "accept"})
                 cmds.append({"op": "project", "cif": "c"})
-                cmds.append({"op": "parse", "text": text, "handler": 1, "script": p["script"], "errors": "accept"})
+                cmds.append({"op": "parse", "text": text, "handler": 1, "syntax": 1, "script": p["script"], "errors": "accept"})
                 cmds.append({"op": "reset"})
             return chunk, run_cifrun(binary, cmds, timeout=900)
         chunks = [programs[i:i + 150] for i in range(0, len(programs), 150)]
@@ -216,7 +217,7 @@ def c15(tier, replay=None):
                     rep.violation("parse abnormal termination " + sanitizer_signature(rr.stderr), "cif_parse did not return for program %s on document %s" % (p["script"], name),
                                   {"text": text, "script": p["script"], "stderr": rr.stderr[-1500:]})
                     break
-                exp = [(e["cb"], e["id"], e["r"]) for e in p["log"]]
+                exp = [(e["cb"], e["id"], e["r"]) for e in p["full"]]      # handler and syntax callbacks, interleaved
                 problems = []
                 drift = []
                 for mode, oo in (("storing", o[0]), ("syntax-only", o[2])):
@@ -230,7 +231,7 @@ def c15(tier, replay=None):
                         else:
                             d = next((i for i, (a, b) in enumerate(zip(obs, exp)) if not (a[0] == b[0] and a[2] == b[2] and (a[1] is None or a[1] == b[1]))), min(len(obs), len(exp)))
                             problems.append("%s: callback %d observed %s, specified %s" % (mode, d + 1, obs[d] if d < len(obs) else "(end)", exp[d] if d < len(exp) else "(end)"))
-                if [(e["cb"], e["r"]) for e in o[0]["log"]] != [(e["cb"], e["r"]) for e in o[2]["log"]]:
+                if [(e["cb"], e.get("r", 0)) for e in o[0]["log"]] != [(e["cb"], e.get("r", 0)) for e in o[2]["log"]]:
                     problems.append("storing and syntax-only mode delivered different callback sequences")
                 got = stored_ids(o[1]["state"], maps)
                 if got != set(p["stored"]):
